@@ -1,6 +1,9 @@
 from vf import Job
 from units.common_wake import wake_one_jobs, block_jobs, sleepq_jobs, spin_jobs, cond_jobs
 JOBS = cond_jobs("c05") + block_jobs("c05") + sleepq_jobs("c05") + spin_jobs("c05")
+# the public API functions are one-line forwarders to the bodies under contract: checked mechanically (DESIGN §3.5b)
+from units.common_forward import forward_job
+JOBS = list(JOBS) + [forward_job("c05")]
 META = {
  "level": "proof",
  "level_text": "Contracts on the real cond_wait/signal/broadcast bodies and on the blocking and wake-up procedures they are built from; the ordering mechanisms (context saved -> enqueue -> release the mutex; dequeue -> publish) are preconditions of the callee contracts, so a reordering fails a named obligation. Loops closed by loop contracts.",
